@@ -523,13 +523,51 @@ func compare(t *target, got pstate, gotErr bool, want pstate) string {
 	return ""
 }
 
+// pendingFinding classifies a mismatch of a target against the CONTRACT (all Q* constants FALSE).
+//
+// TODO-KNOWN-FINDING (C23-F1, C23-F2, C23-F3; spec/store/NOTES.md): three backends deviate from the
+// ethdb contract exactly as the QEmptyDel / QEager / QReplayRange constants of KV.tla describe.  Those
+// backends are bound to the module *with* their constant set (any other deviation is a VIOLATION);
+// when the contract edges are replayed on them (-pending) a mismatch is reported as pending only if
+// the edge involves the construct of the finding, everything else stays a violation.
+func pendingFinding(t *target, e edge) string {
+	hasOp := func(x any, pred func(m map[string]any) bool) bool {
+		for _, o := range x.([]any) {
+			if pred(o.(map[string]any)) {
+				return true
+			}
+		}
+		return false
+	}
+	isRng := func(m map[string]any) bool { return m["t"] == "rng" }
+	emptyDel := func(m map[string]any) bool { return m["t"] == "del" && len(m["k"].([]any)) == 0 }
+	op := e.Act["op"].(string)
+	switch {
+	case t.name == "mem":
+		if (op == "BDelete" && len(e.Act["k"].([]any)) == 0) || hasOp(e.From["batch"], emptyDel) {
+			return "C23-F1 memorydb batch.Delete(empty key) is buffered as DeleteRange(nil,nil)"
+		}
+	case strings.HasSuffix(t.name, "leveldb"):
+		if op == "BDeleteRange" || hasOp(e.From["batch"], isRng) {
+			return "C23-F2 leveldb batch.DeleteRange is evaluated at call time"
+		}
+	case t.prefix != nil:
+		if op == "BDeleteRange" || hasOp(e.From["batch"], isRng) {
+			return "C23-F3 rawdb table batch cannot Replay a DeleteRange"
+		}
+	}
+	return ""
+}
+
 type edge struct {
 	From map[string]any `json:"from"`
 	Act  map[string]any `json:"act"`
 	To   map[string]any `json:"to"`
 }
 
-func runEdges(in string, targets []*target, sum *tl.Summary) {
+func runEdges(in string, targets []*target, sum *tl.Summary, pending bool) {
+	pend := map[string]int{}
+	pendSample := map[string]any{}
 	f, err := os.Open(in)
 	if err != nil {
 		tl.Fatal("open %s: %v", in, err)
@@ -575,6 +613,15 @@ func runEdges(in string, targets []*target, sum *tl.Summary) {
 				diff = compare(t, got, gerr, to)
 			}
 			if diff != "" {
+				if pending {
+					if f := pendingFinding(t, e); f != "" {
+						pend[f]++
+						if _, ok := pendSample[f]; !ok {
+							pendSample[f] = tl.M{"target": t.name, "edge": e, "diff": diff}
+						}
+						continue
+					}
+				}
 				bad[ti]++
 				if bad[ti] <= 3 {
 					sum.Violate(fmt.Sprintf("[%s] %v from %v: %s", t.name, compact(e.Act), compact(e.From), diff), tl.M{"target": t.name, "variant": t.variant, "edge": e, "diff": diff})
@@ -596,6 +643,10 @@ func runEdges(in string, targets []*target, sum *tl.Summary) {
 		w.release()
 	}
 	sum.Extra["mismatches"] = bad
+	if pending {
+		sum.Extra["pending_findings"] = pend
+		sum.Extra["pending_samples"] = pendSample
+	}
 	sum.Distinct = len(distinct)
 	sum.Rule = "every transition (state, action, successor) of the TLC state graph executed on each target after establishing the from-state through the public API; result, store content (full iteration), batch content (Replay into a recorder), ValueSize, remaining iterator items and untouched foreign keys compared; distinct = distinct state-changing (state, action) pairs and read sets"
 }
@@ -682,11 +733,11 @@ func runRecord(prefix string, targets []*target, seed int64, ntraces, steps int,
 				case c < 52 && !written:
 					k, v := randKey(r), randVal(r)
 					must(w.batch.Put(k, v))
-					emit(tl.M{"op": "BPut", "k": fromBytes(k), "v": fromBytes(v), "size": w.batch.ValueSize()})
+					emit(tl.M{"op": "BPut", "k": fromBytes(k), "v": fromBytes(v), "size": w.batch.ValueSize(), "pfx": len(t.prefix)})
 				case c < 58 && !written:
 					k := randKey(r)
 					must(w.batch.Delete(k))
-					emit(tl.M{"op": "BDelete", "k": fromBytes(k), "size": w.batch.ValueSize()})
+					emit(tl.M{"op": "BDelete", "k": fromBytes(k), "size": w.batch.ValueSize(), "pfx": len(t.prefix)})
 				case c < 64 && !written:
 					a, e := randOpt(r), randOpt(r)
 					must(w.batch.DeleteRange(a, e))
@@ -698,7 +749,7 @@ func runRecord(prefix string, targets []*target, seed int64, ntraces, steps int,
 				case c < 74:
 					w.batch.Reset()
 					written = false
-					emit(tl.M{"op": "BReset", "size": w.batch.ValueSize()})
+					emit(tl.M{"op": "BReset", "size": w.batch.ValueSize(), "pfx": len(t.prefix)})
 				case c < 78:
 					via := r.Intn(2) == 0
 					var err error
@@ -735,7 +786,7 @@ func runRecord(prefix string, targets []*target, seed int64, ntraces, steps int,
 						continue
 					}
 					w.batch.Reset()
-					emit(tl.M{"op": "BReset", "size": w.batch.ValueSize()})
+					emit(tl.M{"op": "BReset", "size": w.batch.ValueSize(), "pfx": len(t.prefix)})
 					w.release()
 					t.reopen()
 					w.batch = t.kv.NewBatch()
@@ -775,6 +826,7 @@ func main() {
 	out := flag.String("out", "summary.json", "summary output")
 	n := flag.Int("n", 10, "traces per target")
 	steps := flag.Int("steps", 200, "steps per trace")
+	pending := flag.Bool("pending", false, "edges are contract edges replayed on deviating targets: classify known deviations as pending findings")
 	flag.Parse()
 	seed := int64(tl.EnvInt("VERIF_SEED", 1))
 	sum := tl.NewSummary("c23", *mode, seed)
@@ -792,7 +844,7 @@ func main() {
 	}
 	switch *mode {
 	case "edges":
-		runEdges(*in, targets, sum)
+		runEdges(*in, targets, sum, *pending)
 	case "record":
 		runRecord(*prefix, targets, seed, *n, *steps, sum)
 	default:
